@@ -1,0 +1,22 @@
+//go:build verif
+
+package objfile
+
+// Contracts for the gvc verifier (/verif). Comment-only; never compiled into
+// a normal build.
+
+// Writer.Write never forwards more than the size declared in the header:
+// object invariant pending >= 0 (bytes still allowed); an attempt to write
+// more is cut to the remaining budget and reported as ErrOverflow.
+//gvc:func (*Writer).Write
+//gvc:  props C01
+//gvc:  theory int
+//gvc:  modifies w.pending, p[*], w.multi.#sink
+//gvc:  requires inv: w.pending >= 0
+//gvc:  requires multi: w.multi != nil
+//gvc:  ensures inv: w.pending >= 0
+//gvc:  ensures account: !old(w.closed) ==> w.pending == old(w.pending) - n && w.multi.#wlen == old(w.multi.#wlen) + n
+//gvc:  ensures budget: 0 <= n && n <= old(w.pending)
+//gvc:  ensures overflow: !old(w.closed) && len(p) > old(w.pending) ==> err != nil
+//gvc:  ensures closed: old(w.closed) ==> n == 0 && err == ErrClosed
+//gvc:end
